@@ -1,4 +1,5 @@
 import FitModel.ReadBuffer
+import FitModel.FitFormat
 /-!
 Model of `/repo/decoder/raw.go`: `(*RawDecoder).Decode(r, fn)` as written — a client of `io.ReadFull` on the
 reader itself (no read buffer), so it is a `Fit.ReadBuffer.Prog`: every request is one `io.ReadFull`.
@@ -134,5 +135,40 @@ def decode (failAt : Option Nat) : Nat → St → P
                       | .ok c =>
                         emit failAt st rawFlagCRC c fun st =>
                           decode failAt fuel { st with seqs := st.seqs + 1 }
+
+/-! ### what the protocol prescribes for the length of each segment, given the preceding definitions (from `FitFormat`) -/
+
+/-- one step of the walk over the reported segments: the table of live definitions (`FitFormat.Defs`) after the
+segment, or `none` if the segment does not have the prescribed shape and length -/
+def lenStep (st : Option FitFormat.Defs) (s : Seg) : Option FitFormat.Defs :=
+  match st with
+  | none => none
+  | some defs =>
+    if s.flag = rawFlagFileHeader then
+      -- a file header is as long as its first byte says, 12 or 14; definitions do not survive a sequence
+      if (s.bytes.headD 0 = 12 ∨ s.bytes.headD 0 = 14) ∧ s.bytes.length = s.bytes.headD 0 then some FitFormat.Defs.empty else none
+    else if s.flag = rawFlagMesgDef then
+      match s.bytes with
+      | h :: body =>
+        match FitFormat.parseDefinition h 0 body with
+        | some (r, []) =>
+          if FitFormat.isDefinition h ∧ r.len = s.bytes.length
+          then some (defs.set r.localNum (FitFormat.sizeSum r.fields + FitFormat.sizeSum r.devFields)) else none
+        | _ => none
+      | [] => none
+    else if s.flag = rawFlagMesgData then
+      match s.bytes with
+      | h :: payload =>
+        if !FitFormat.isDefinition h ∧ defs (FitFormat.localNum h) = some payload.length then some defs else none
+      | [] => none
+    else if s.flag = rawFlagCRC then
+      if s.bytes.length = 2 then some defs else none
+    else none
+
+/-- every segment has the length the protocol prescribes given the preceding definitions -/
+def lengthsOK (segs : List Seg) : Bool := (segs.foldl lenStep (some FitFormat.Defs.empty)).isSome
+
+def flat (segs : List Seg) : Bytes := segs.flatMap (·.bytes)
+
 
 end Fit.Raw
